@@ -528,9 +528,9 @@ class IkeSa(object):
         return response
 
     def _generate_ike_sa_negotiation_request(self):
-        # create the Payload SA
-        self.chosen_proposal = self.configuration.proposal
-        self.chosen_proposal.spi = self.my_spi
+        # create the Payload SA (on a copy: the configured Proposal is shared by every IKE_SA of the connection)
+        self.chosen_proposal = Proposal(self.configuration.proposal.num, self.configuration.proposal.protocol_id,
+                                        self.my_spi, self.configuration.proposal.transforms)
         payload_sa = PayloadSA([self.chosen_proposal])
 
         # generate payload NONCE
@@ -605,9 +605,9 @@ class IkeSa(object):
         result.append(PayloadTSi(child_sa.tsi))
         result.append(PayloadTSr(child_sa.tsr))
 
-        # generate Payload SA
-        child_sa.proposal.spi = child_sa.inbound_spi
-        result.append(PayloadSA([child_sa.proposal]))
+        # generate Payload SA (on a copy: the configured Proposal is shared by every IKE_SA of the connection)
+        result.append(PayloadSA([Proposal(child_sa.proposal.num, child_sa.proposal.protocol_id, child_sa.inbound_spi,
+                                          child_sa.proposal.transforms)]))
 
         # generate Payload KE (if required)
         try:
